@@ -205,7 +205,7 @@ func init() {
 			floorRule("COND", "COND", 3),
 			floorRule("LIN", "LIN", 4),
 			floorKey("worker exit paths", 2, "PATH/(*Workers).worker/"),
-			floorKey("per-item", 3, "/(*Workers).worker$1/"),
+			floorKey("per-item", 3, "/(*Workers).worker$call1/"),
 			floorKey("AT Workers", 5, "AT/(*Workers)"),
 			floorKey("G Workers.count", 4, "G/", "Workers.count"),
 			floorKey("S Workers.count", 1, "S/(*Workers).worker/"),
